@@ -557,12 +557,16 @@ static void add_storage_blocks(C& compact, std::set<const void*>& seen, std::vec
   collect_blocks(compact._storage->_storage, sizeof(typename C::CacheLine), out);
 }
 
-static void register_payload() {
+// `dying`: handles the main thread destroys during the phase.  The blocks of a bare thread-local are
+// freed with it; if they stayed registered, the allocator could hand the memory to this harness's own
+// tables and every plain access to those would become a scheduling point (races on harness data).
+static void register_payload(const std::vector<int>& dying) {
   vrt_unname_all();
   std::set<const void*> seen;
   std::vector<std::pair<const void*, size_t>> blocks;
   for (auto& kv : W->objs) {
     Obj& o = *kv.second;
+    if (o.kind == ETL && std::find(dying.begin(), dying.end(), kv.first) != dying.end()) continue;
     switch (o.kind) {
       case ADDER: add_storage_blocks(o.adder->_storage, seen, blocks); break;
       case SUMMER: add_storage_blocks(o.summer->_storage, seen, blocks); break;
@@ -740,7 +744,7 @@ static void run_hist(uint64_t seed) {
       }
       if (mv_a && w->last > p) { w->ops.push_back(Op {mv_a, 0, 1, true}); ++W->n_mvprobe; }
     }
-    register_payload();
+    register_payload(doomed);
     {
       std::lock_guard<std::mutex> lk(g_mu);
       g_phase = p;
